@@ -502,7 +502,7 @@ but no other interpretation is applied
 
     def dependencies(self, Eups=None, eupsPathDirs=None, recursive=None, recursionDepth=0, followExact=None,
                      productDictionary=None, addDefaultProduct=None, requiredVersions={},
-                     listExternalDependencies=False):
+                     listExternalDependencies=False, _unsetupInProgress=()):
         """
         Return the product dependencies as specified in this table as a list
         of (Product, optional?, recursionDepth) tuples
@@ -575,9 +575,12 @@ but no other interpretation is applied
                     table = thisProduct.getTable()
 
                     unsetupProducts = [thisProduct.name]
-                    if table and not extraArgs["noRecursion"]:
+                    # a product whose unsetup listing is already in progress (an unsetup line inside a dependency
+                    # cycle) contributes only its name: listing it again from here would never end
+                    if table and not extraArgs["noRecursion"] and prodkey(thisProduct) not in _unsetupInProgress:
                         subDeps = table.dependencies(Eups, eupsPathDirs=eupsPathDirs,
-                                                    recursive=True, followExact=followExact)
+                                                    recursive=True, followExact=followExact,
+                                                    _unsetupInProgress=_unsetupInProgress + (prodkey(thisProduct),))
                         unsetupProducts += [val[0].name for val in subDeps]
 
                     for pn in unsetupProducts:
@@ -621,7 +624,8 @@ but no other interpretation is applied
                         if deptable:
                             deps += deptable.dependencies(Eups, eupsPathDirs, recursiveDict,
                                                           recursionDepth + 1, followExact, productDictionary,
-                                                          addDefaultProduct, requiredVersions=requiredVersions)
+                                                          addDefaultProduct, requiredVersions=requiredVersions,
+                                                          _unsetupInProgress=_unsetupInProgress)
 
                 except (ProductNotFound, TableFileNotFound):
                     product = Product(productName, vers) # it doesn't exist, but it's still a dep.
